@@ -28,7 +28,7 @@ w('Every check was first run on the tree as given (commit `4c62642`, later on th
   'under the same key if the repair is reverted (verified per property, see `notes/Cxx.md`, section self-test).  '
   'Alarms that turned out to be mistakes of a model, harness or oracle were corrected in the machinery and are '
   'described in the notes (e.g. C06: the simulated client looked the cookie id up in every user\'s keyring; C11: '
-  'reply bodies rendered without the sender\'s variant inference; C15: model drift after the C16 repair).\n')
+  'reply bodies rendered without the sender\'s variant inference; C15: model drift after the C16 repair; C06, found late by a thorough run with a new seed: the simulated client switched keyrings on an AUTH line the bus had answered with ERROR, so its "right" cookie response was not right).\n')
 nfix = sum(1 for e in kf if e['status'] == 'fixed')
 nkn = sum(1 for e in kf if e['status'] == 'known')
 commits = sorted({e.get('commit') for e in kf if e.get('commit')})
